@@ -15,8 +15,10 @@ vars == <<cfg, phase>>
 NegRank == {-3}
 
 AllEight == <<"Debug", "Clone", "PartialEq", "Eq", "PartialOrd", "Ord", "Hash", "Default">>
-TraitSetsQuick == { AllEight }
-TraitSetsThorough == { AllEight, <<"Debug", "PartialEq", "PartialOrd">>, <<"Hash", "Clone", "Copy", "Default">> }
+Alone == <<"Debug", "PartialEq", "PartialOrd", "Hash", "Clone">>   \* primaries without their partners: their own parsers run
+IntoOnly == <<"Into">>
+TraitSetsQuick == { AllEight, Alone, IntoOnly }
+TraitSetsThorough == { AllEight, Alone, IntoOnly, <<"Debug", "Into">>, <<"Debug", "PartialEq", "PartialOrd">>, <<"Hash", "Clone", "Copy", "Default">> }
 
 S3(a, b, c) == a \o "/" \o b \o "/" \o c
 FSite(v, i, t, what) == "f/" \o ToString(v) \o "/" \o ToString(i) \o "/" \o t \o "/" \o what
@@ -49,6 +51,7 @@ NMetas(c, v, i) ==
     B2N(Has(c, "Debug") /\ (f.dbg # Own \/ f.key # "")) + B2N(Has(c, "Clone") /\ f.clone = Method)
     + B2N(Has(c, "PartialEq") /\ f.eq # Own) + B2N(Ordered(c) /\ (f.ord # Own \/ f.rank # NoRank))
     + B2N(Has(c, "Hash") /\ f.hash # Own) + B2N(Has(c, "Default") /\ f.dflt # "none")
+    + (IF Has(c, "Into") THEN Len(f.into) ELSE 0)
 
 FieldSites(c, v, i) ==
   LET f == c.variants[v].fields[i] IN
@@ -59,6 +62,9 @@ FieldSites(c, v, i) ==
     \cup (IF Has(c, "Hash") /\ f.hash = Ignore THEN { <<FSite(v, i, "Hash", "ignore"), "ignore">> } ELSE {})
     \cup (IF Has(c, "Hash") /\ f.hash = Method THEN { <<FSite(v, i, "Hash", "method"), "method_p">> } ELSE {})
     \cup (IF Has(c, "Default") /\ f.dflt # "none" THEN { <<FSite(v, i, "Default", "expr"), "expr">> } ELSE {})
+    \cup (IF Has(c, "Into")
+          THEN { <<FSite(v, i, "Into:" \o f.into[k].t, "method"), "method_p">> : k \in { j \in DOMAIN f.into : f.into[j].m } }
+          ELSE {})
     \cup (IF NMetas(c, v, i) >= 2 THEN { <<FBase(v, i, "order"), "order">>, <<FBase(v, i, "split"), "split">> } ELSE {})
 
 VariantSites(c, v) ==
